@@ -59,8 +59,8 @@ class DataCollection:
         self.base_path = p
         self.save_path = p
 
+        self.use_thread = use_thread
         if use_thread:
-            self.use_thread = use_thread
             self.write_thread = threading.Thread(target=self.write)
             self.write_thread.start()
 
